@@ -67,6 +67,9 @@ LAYERS: Dict[str, Dict[str, Any]] = {
     # ... and exponents that are themselves quotients of literals: X ** (1 / 2), 2 ** (X / 2)
     'fortran_pow3': dict(NoReject='TRUE', MaxStmts=1, MaxLeaves=3, MaxNodes=6, MaxNames=2, Kinds='VOnly', Idxs='Lhs0', LhsIdxs='Lhs0', Nums='PowInts',
                          BinOps='PowDiv', CmpOps='NoStr', Funcs1='NoStr', Funcs2='NoStr', UseNeg='FALSE', UseParen='TRUE', UseCond='FALSE'),
+    # a negated operand after another operator, with a power: A * -X ** 2, -X ** 2 * A, X ** -2 ...
+    'fortran_negpow': dict(NoReject='TRUE', MaxStmts=1, MaxLeaves=3, MaxNodes=6, MaxNames=2, Kinds='VOnly', Idxs='Lhs0', LhsIdxs='Lhs0', Nums='TwoOnly',
+                           BinOps='PowMul', CmpOps='NoStr', Funcs1='NoStr', Funcs2='NoStr', UseNeg='TRUE', UseParen='FALSE', UseCond='FALSE'),
     'fortran_small': dict(MaxStmts=1, MaxLeaves=2, MaxNodes=3, MaxNames=2, Kinds='AllKinds', Idxs='FortIdxs', LhsIdxs='Lhs0', Nums='FortNums',
                           BinOps='ArithOps', CmpOps='NoStr', Funcs1='FortF1', Funcs2='PairF2', UseNeg='TRUE', UseParen='FALSE', UseCond='FALSE'),
     'fortran_sim': dict(MaxStmts=4, MaxLeaves=5, MaxNodes=10, MaxNames=5, Kinds='AllKinds', Idxs='FortIdxs', LhsIdxs='Lhs0', Nums='FortNums',
@@ -101,7 +104,7 @@ def layer_cfg(layer: str, invariants: Sequence[str], emit: bool = True) -> str:
     return '\n'.join(lines) + '\n'
 
 
-SMALL_LAYERS = {'fortran_pow3': 4, 'nsfunc': 2, 'verb3': 4, 'fortran_pow': 2, 'vstmt': 4, 'verb': 2, 'bool': 8, 'term': 2, 'merge2_small': 4, 'shape3_small': 8, 'fortran_small': 8, 'pair_small': 8, 'merge3': 8, 'merge2': 8}
+SMALL_LAYERS = {'fortran_negpow': 4, 'fortran_pow3': 4, 'nsfunc': 2, 'verb3': 4, 'fortran_pow': 2, 'vstmt': 4, 'verb': 2, 'bool': 8, 'term': 2, 'merge2_small': 4, 'shape3_small': 8, 'fortran_small': 8, 'pair_small': 8, 'merge3': 8, 'merge2': 8}
 
 
 def emit_layer(ctx: core.Ctx, layer: str, *, timeout: int = 3600) -> List[Dict[str, Any]]:
